@@ -321,6 +321,29 @@ let handle line =
         let r3 = mqtt_connect pre false [] (fst r2) in
         print_str (show r1 @ lit_ " ; " @ show r2 @ lit_ " ; " @ show r3)
       end
+  | "MQH" ->
+      (* one MQTT client over its whole life: connects, disconnects, deliveries, reads *)
+      let nops = next_int c in
+      let rec ops i acc =
+        if i = 0 then List.rev acc
+        else
+          let o = match next c with
+            | "C" -> LConnect
+            | "D" -> LDisconnect
+            | "R" -> LRead
+            | "M" -> let t = next_str c in let p = next_str c in LDeliver (BMsg (t, p))
+            | "E" -> LDeliver BError
+            | x -> failwith ("bad life op " ^ x) in
+          ops (i - 1) (o :: acc) in
+      let (_, outs) = life_run ml_init (ops nops []) in
+      let show = function
+        | LDone -> lit_ "ok"
+        | LRuntimeError -> lit_ "RT"
+        | LPending -> lit_ "P"
+        | LGot (QLine l) -> lit_ "L " @ l
+        | LGot QReadError -> lit_ "RE"
+        | LGot QFailed -> lit_ "RF" in
+      print_str (List.concat (List.map (fun o -> show o @ lit_ "|") outs))
   | "MQR" ->
       let topic = next_str c in
       let payload = next_str c in
